@@ -34,21 +34,23 @@ def fileio_cfgs():
     c = []
     for ext in (0, 1):
         e = {"WITH_EXTENTS": None} if ext else {}
-        for op in ("WRITE", "READ", "LLSEEK", "FLUSH", "CLOSE"):
-            c.append(dict(e, OP=OPS[op]))
-        c.append(dict(e, OP=OPS["SET_SIZE"], BUF_INVALID=None))
-        c.append(dict(e, OP=OPS["SET_SIZE"]))
+        for op in ("WRITE", "READ"):       # the two heavy ones: kissat is 2-3x faster than the default back end here
+            c.append(dict(e, OP=OPS[op], _backends=["kissat", "default"]))
+        for op in ("LLSEEK", "FLUSH", "CLOSE"):
+            c.append(dict(e, OP=OPS[op], _backends=["default"]))
+        c.append(dict(e, OP=OPS["SET_SIZE"], BUF_INVALID=None, _backends=["default"]))
+        c.append(dict(e, OP=OPS["SET_SIZE"], _backends=["default"]))
     return c
 
 HARNESSES = [
     dict(name="punch_ext_blocks", src="punch_ext_blocks.c",
          funcs=["punch_extent_blocks", "ext2fs_blocks_count"],
          extra_src=["lib/ext2fs/blknum.c"],
-         configs=[{"CRB": 0}, {"CRB": 2}, {"CRB": 1}], unwind=6,
+         configs=[{"CRB": 0}, {"CRB": 2}, {"CRB": 1}], unwind=6, witness_backends=["default"],
          unwindset=main_loops(12, 66) + ["punch_extent_blocks.0:16", "punch_extent_blocks.1:6",
                                           "stub_block_alloc_stats2.0:66", "stub_map_cluster_block.0:8",
                                           "stub_map_cluster_block.1:8"],
-         backends=["default", "kissat"],
+         backends=["default"],
          bound="cluster ratio 1, 2, 4; freed range of 1 .. 3 clusters + 1 block starting anywhere in two clusters; "
                "remaining-mapped bits of 5 clusters symbolic; logical cluster number < 2^40"),
     dict(name="inline", src="inline.c",
@@ -56,7 +58,7 @@ HARNESSES = [
          extra_src=["lib/ext2fs/blknum.c", "lib/ext2fs/bmap.c", "lib/ext2fs/io_manager.c", "lib/ext2fs/i_block.c"],
          configs=[{"OP": 2}, {"OP": 1}], unwind=6,
          unwindset=main_loops(12, 66) + ["stub_inline_get.0:66", "stub_inline_set.0:66"],
-         backends=["default", "kissat"],
+         backends=["default"],
          bound="inline store 60..64 bytes (xattr part 0..4, room 0..4), i_size <= store, request <= 8 bytes, "
                "position any value below 2^32, handle buffer 96 bytes"),
     dict(name="fileio", src="fileio.c",
@@ -77,7 +79,7 @@ HARNESSES = [
          stubs=["ext2fs_block_alloc_stats", "ext2fs_write_inode"],
          unwind=6, unwindset=PUNCH_UW,
          cbmc_flags=["--max-field-sensitivity-array-size", "1024"],
-         backends=["default", "kissat"],
+         backends=["default"],
          bound="1 KiB blocks; 12 direct slots, first K slots of each indirect block symbolic (present/absent), "
                "others zero; LEVELS=1: direct+indirect (K=3), 2: + double indirect with K=2 children, "
                "3 (thorough tier, K=1): + one triple-indirect chain; start <= end: all 2^64 values"),
